@@ -249,7 +249,7 @@ pub fn build_file(segs: &Value, big: &[PoolStream], small: &[PoolStream], rng: &
                     "zip" => {
                         let nm = s["nm"].as_u64().unwrap_or(0) as usize;
                         let x = s["x"].as_u64().unwrap_or(0) as usize;
-                        bytes.extend_from_slice(&gen::wrap_zip(&ps.stream, &ps.plain, nm, x, (s["flags"].as_u64().unwrap_or(0) / 2 % 4) as usize, rng));
+                        bytes.extend_from_slice(&gen::wrap_zip(&ps.stream, &ps.plain, nm, x, (s["flags"].as_u64().unwrap_or(0) / 2 % 5) as usize, rng));
                         hdr_len = 30 + nm + x;
                         span = ps.stream.len();
                         idat = false;
